@@ -149,3 +149,140 @@ def prm_to_dict(p):
 def model_frame_desc(raw, prm, name):
     rows = [[r['c'], -DT * (10 - r['t']), None if r['h'] == -1 else r['h'], r['k']] for r in raw]
     return {'family': 'F1', 'name': name, 'rows': rows, 'prms': prm_to_dict(prm), 'indomain': True}
+
+
+# ------------------------------------------------------------------------------------------------
+# F7 (pipeline form): one flat layer, n hits out of m measurements
+# ------------------------------------------------------------------------------------------------
+def nm_desc(c):
+    n, m, nce = c['n'], c['m'], c['nce']
+    rows = []
+    # m measurements spread over nce ceilometers (coincident time stamps when nce = 2)
+    meas = []
+    for j in range(m):
+        ce = 'a' if (nce == 1 or j % 2 == 0) else 'b'
+        t = j if nce == 1 else j // 2
+        meas.append((ce, -DT * t))
+    for j, (ce, dt) in enumerate(meas):
+        if j < n:
+            rows.append([ce, dt, 1000, 1])
+            if c['dup']:
+                rows.append([ce, dt, 1010, 2])
+        else:
+            rows.append([ce, dt, None, 0])
+    return {'family': 'F7nm', 'name': f'nm:{n}/{m}:h0={c["h0"]}:h8={c["h8"]}:dup={c["dup"]}:nce={nce}', 'rows': rows,
+            'prms': {'MAX_HITS_OKTA0': c['h0'], 'MAX_HOLES_OKTA8': c['h8']}, 'indomain': True, 'abstract': c}
+
+
+def nm_descs(tier, seed, limit):
+    cases = export('nm_cases', tier)['nm_cases']
+    rng = random.Random(seed)
+    sel = stratified(cases, lambda c: (c['m'], c['h0'], c['h8']), limit, rng)
+    return [nm_desc(c) for c in sel], len(cases)
+
+
+# ------------------------------------------------------------------------------------------------
+# F3: band layouts (merging of close groups, look-back, exclusion)
+# ------------------------------------------------------------------------------------------------
+GAP_FT = {'lt': 180, 'eq': 250, 'gt': 320, 'far': 2000}
+THICK_FT = {'flat': 0, 'thin': 30, 'thick': 120}
+
+
+def band_desc(lay, idx, rng):
+    nt = 12
+    base0 = rng.choice([1000, 1000, 600, 9700, 9900])       # some layouts straddle the 10000 ft bin limit
+    bases = [base0]
+    for g in lay['gaps']:
+        bases.append(bases[-1] + GAP_FT[g])
+    meas = {}
+    for bi, b in enumerate(bases):
+        th = THICK_FT[lay['thick'][bi]]
+        owners = list(lay['own'][bi])
+        age = lay['age'][bi]
+        ts = range(0, nt // 2) if age == 'old' else (range(nt // 2, nt) if age == 'new' else range(nt))
+        for ce in owners:
+            for t in ts:
+                h = b + (rng.randint(0, th) if th else 0)
+                meas.setdefault((ce, t), set()).add(h)
+    rows = []
+    for ce in ('a', 'b'):
+        for t in range(nt):
+            hs = sorted(meas.get((ce, t), ()))
+            dt = -DT * (nt - 1 - t)
+            if not hs:
+                rows.append([ce, dt, None, 0])
+            for k, h in enumerate(hs):
+                rows.append([ce, dt, h, k + 1])
+    order = ['asc', 'desc', 'shuf'][idx % 3]
+    if order == 'desc':
+        rows.reverse()
+    elif order == 'shuf':
+        rng.shuffle(rows)
+    prms = {'BASE_LVL_HEIGHT_PERC': rng.choice([0, 5, 50, 95, 100]),
+            'BASE_LVL_LOOKBACK_PERC': rng.choice([100, 70, 50, 30]),
+            'EXCLUDE_FOR_BASE_HEIGHT_CALC': rng.choice([[], [], ['a'], ['b']]),
+            'MAX_HITS_OKTA0': rng.choice([0, 2, 3]),
+            'SLICING_PRMS': {'distance_threshold': rng.choice([0.02, 0.05, 0.2])}}
+    if rng.random() < 0.3:
+        prms['MIN_SEP_VALS'] = [250, 320, 1000]
+        prms['MIN_SEP_LIMS'] = [1200, 10000]
+    return {'family': 'F3', 'name': f'F3:{idx}:{"".join(g[0] for g in lay["gaps"])}:{order}', 'rows': rows, 'prms': prms,
+            'indomain': True, 'abstract': lay}
+
+
+def band_descs(tier, seed, limit):
+    lays = export('band_layouts', tier)['band_layouts']
+    rng = random.Random(seed)
+    sel = stratified(lays, lambda l: (len(l['gaps']), tuple(l['gaps']), tuple(l['own'])), limit, rng)
+    return [band_desc(l, i, random.Random(f'F3:{seed}:{i}')) for i, l in enumerate(sel)], len(lays)
+
+
+# ------------------------------------------------------------------------------------------------
+# F3b: one group of two or three levels (mixture model engaged, look-back, row order)
+# ------------------------------------------------------------------------------------------------
+def split_desc(lay, idx):
+    rng = random.Random(f'F3b:{idx}:{lay["gap"]}:{lay["old"]}')
+    nt = 40
+    rows = []
+    for i in range(nt):
+        t = -DT * (nt - 1 - i)
+        l1 = 1000 + (i % 3) * 5 - 5
+        frac = i / (nt - 1)
+        l2 = round(1000 + lay['gap'] + lay['old'] * (1 - frac))
+        rows.append(['a', t, l1, 1])
+        rows.append(['a', t, l2, 2])
+        if lay['third']:
+            rows.append(['a', t, l2 + 600 + (i % 2) * 4, 3])
+    if lay['order'] == 'desc':
+        rows.reverse()
+    elif lay['order'] == 'shuf':
+        rng.shuffle(rows)
+    prms = {'BASE_LVL_LOOKBACK_PERC': lay['lb'], 'BASE_LVL_HEIGHT_PERC': lay['p']}
+    return {'family': 'F3b', 'name': f'F3b:{lay["gap"]}:{lay["old"]}:{lay["third"]}:{lay["order"]}:lb{lay["lb"]}:p{lay["p"]}',
+            'rows': rows, 'prms': prms, 'indomain': True, 'abstract': lay}
+
+
+def split_descs(tier, seed, limit):
+    lays = export('split_layouts', tier)['split_layouts']
+    rng = random.Random(seed)
+    sel = stratified(lays, lambda l: (l['gap'], l['old'], l['order'], l['lb']), limit, rng)
+    return [split_desc(l, i) for i, l in enumerate(sel)], len(lays)
+
+
+# ------------------------------------------------------------------------------------------------
+# F1 export: initial states of the model instance
+# ------------------------------------------------------------------------------------------------
+def model_frames(cfg_text, prmset, tier, seed, limit):
+    """ frames and parameter records of an MC_Chunk instance, crossed and sampled """
+    ex = export('frames', tier, module='ExportFrames', cfg=cfg_text, extra_env={'PRMSET': prmset})
+    frames, prms = ex['frames'], ex['prms']
+    rng = random.Random(seed)
+    total = len(frames) * len(prms)
+    descs = []
+    if limit is None or total <= limit:
+        pairs = [(f, p) for f in frames for p in prms]
+    else:
+        pairs = [(frames[rng.randrange(len(frames))], prms[rng.randrange(len(prms))]) for _ in range(limit)]
+    for i, (f, p) in enumerate(pairs):
+        descs.append(model_frame_desc(f, p, f'F1:{i}'))
+    return descs, total
